@@ -1,93 +1,26 @@
-import GoCrypt.Model.Scheme
-import GoCrypt.Props.KdfProps
-import GoCrypt.Props.C19
+import GoCrypt.Props.C02Core
+import GoCrypt.Props.C02b
 
 /-!
 # C02 — a wrong password or a tampered hash never verifies
 
-(a) exact characterisation of success on the scheme pipeline model (all ten schemes share it):
-success only through equality of the complete encoded digests; every Unmarshal/Key error is
-returned, never swallowed; (b) tampering with the digest text never verifies; acceptance always
-re-derives with the hash's own parameters; (c) absorption, as reductions to collisions of the
-underlying hash (`Props/KdfProps.lean`). "Not equivalent ⇒ different digest" is, beyond (c), the
-collision resistance of the primitives — an explicit disjunct of the theorems, never an axiom.
+* `Props/C02Core.lean` (namespace `GoCrypt.C02`): `check_ok_iff` — Check returns nil exactly when Key's result
+  re-encodes to the stored digest; error-return and tamper theorems; absorption reductions for md5-crypt, SHA-crypt,
+  Sun MD5 and sha1-crypt (`Props/KdfProps.lean`).
+* `Props/C02b.lean`: the documented password equivalence as a decidable predicate, "equivalent ⇒ same verdict", and
+  "both verify ⇒ equivalent ∨ a named collision of the primitive" for DES-crypt, BSDi, bcrypt, NT hash and Argon2 — and
+  the two places where the ALGORITHM identifies more passwords than the property's wording (known findings F16, F17).
+
+The obligations of C02 are the union of both files.
 -/
 
 namespace GoCrypt.C02
-open GoCrypt GoCrypt.Scheme GoCrypt.Codec
-
-/-- (a) `Check` succeeds exactly when the hash unmarshals, `Key` succeeds on the hash's own salt /
-cost / variant, and the complete encoded digest equals the stored digest text. -/
-theorem check_ok_iff (S : Def) (h pw : Bytes) (rand : Nat) :
-    check S h pw rand = .nil ↔
-      ∃ ti out k, tiOf S = some ti ∧ unmarshal ti h = .ok out ∧
-        key S (checkArgs S ti (finalVals ti out) pw rand) = .ok k ∧
-        S.encodeSum k = fvBytes (fieldVal ti (finalVals ti out) "Sum") := by
-  constructor
-  · intro hc
-    unfold check at hc
-    cases hti : tiOf S with
-    | none => simp [hti] at hc
-    | some ti =>
-      cases hu : unmarshal ti h with
-      | error e => simp [hti, hu] at hc
-      | ok out =>
-        cases hk : key S (checkArgs S ti (finalVals ti out) pw rand) with
-        | ok k =>
-          refine ⟨ti, out, k, rfl, hu, hk, ?_⟩
-          simp only [hti, hu, hk, ctEq] at hc
-          by_cases he : (S.encodeSum k == fvBytes (fieldVal ti (finalVals ti out) "Sum")) = true
-          · exact (beq_iff_eq).1 he
-          · simp [he] at hc
-        | err e => simp [hti, hu, hk] at hc
-        | internal w => simp [hti, hu, hk] at hc
-        | panic => simp [hti, hu, hk] at hc
-  · rintro ⟨ti, out, k, hti, hu, hk, he⟩
-    simp [check, hti, hu, hk, ctEq, he]
-
-/-- (a') No error path falls through to success: an Unmarshal error is returned as it is … -/
-theorem unmarshal_error_returned (S : Def) (ti : TypeInfo) (h pw : Bytes) (rand : Nat) (e : UErr)
-    (hti : tiOf S = some ti) (hu : unmarshal ti h = .error e) : check S h pw rand = .uerr e := by
-  simp [check, hti, hu]
-
-/-- … and so is a `Key` error (parameter out of range, unsupported variant, …). -/
-theorem key_error_returned (S : Def) (ti : TypeInfo) (h pw : Bytes) (rand : Nat) (out : Vals) (e : KeyErr)
-    (hti : tiOf S = some ti) (hu : unmarshal ti h = .ok out)
-    (hk : key S (checkArgs S ti (finalVals ti out) pw rand) = .err e) : check S h pw rand = .kerr e := by
-  simp [check, hti, hu, hk]
-
-/-- (b) Tampering with the digest: two hashes that unmarshal to the same salt / cost / variant but
-different digest texts cannot both verify for one password. Covers every substitution at every
-digest position, for every scheme. -/
-theorem tampered_digest_never_ok (S : Def) (ti : TypeInfo) (h h' pw : Bytes) (rand : Nat) (out out' : Vals)
-    (hti : tiOf S = some ti) (hu : unmarshal ti h = .ok out) (hu' : unmarshal ti h' = .ok out')
-    (hargs : checkArgs S ti (finalVals ti out) pw rand = checkArgs S ti (finalVals ti out') pw rand)
-    (hsum : fvBytes (fieldVal ti (finalVals ti out) "Sum") ≠ fvBytes (fieldVal ti (finalVals ti out') "Sum"))
-    (hok : check S h pw rand = .nil) : check S h' pw rand ≠ .nil := by
-  intro hok'
-  obtain ⟨t1, o1, k1, ht1, ho1, hk1, he1⟩ := (check_ok_iff S h pw rand).1 hok
-  obtain ⟨t2, o2, k2, ht2, ho2, hk2, he2⟩ := (check_ok_iff S h' pw rand).1 hok'
-  rw [hti] at ht1 ht2; cases ht1; cases ht2
-  rw [hu] at ho1; cases ho1
-  rw [hu'] at ho2; cases ho2
-  rw [hargs, hk2] at hk1; cases hk1
-  exact hsum (he1.symm.trans he2)
-
-/-- (b') Acceptance always re-derives with the hash's OWN parameters: if a hash verifies, its digest
-text is the encoding of the key derived from the salt / cost / variant written in that very hash. -/
-theorem accept_rederives_own_params (S : Def) (h pw : Bytes) (rand : Nat) (hok : check S h pw rand = .nil) :
-    ∃ ti out k, tiOf S = some ti ∧ unmarshal ti h = .ok out ∧
-      key S (checkArgs S ti (finalVals ti out) pw rand) = .ok k ∧
-      fvBytes (fieldVal ti (finalVals ti out) "Sum") = S.encodeSum k := by
-  obtain ⟨ti, out, k, a, b, c, d⟩ := (check_ok_iff S h pw rand).1 hok
-  exact ⟨ti, out, k, a, b, c, d.symm⟩
 
 #print axioms check_ok_iff
 #print axioms unmarshal_error_returned
 #print axioms key_error_returned
 #print axioms tampered_digest_never_ok
 #print axioms accept_rederives_own_params
--- (c) absorption: equal keys ⇒ equal passwords or an explicit collision of the hash (shared file Props/KdfProps.lean)
 #print axioms GoCrypt.KdfProps.md5crypt_absorbs
 #print axioms GoCrypt.KdfProps.md5crypt_absorbs_located
 #print axioms GoCrypt.KdfProps.sha2crypt_absorbs
@@ -101,7 +34,36 @@ theorem accept_rederives_own_params (S : Def) (h pw : Bytes) (rand : Nat) (hok :
 #print axioms GoCrypt.KdfProps.sha256_perm_permutation
 #print axioms GoCrypt.KdfProps.sha512_perm_permutation
 #print axioms GoCrypt.KdfProps.sunmd5_perm_permutation
--- the comparison of the two complete digests is the only use of the secret (per-scheme, regenerated flow IR)
 #print axioms GoCrypt.C19.secretSafe'_md5
+#print axioms GoCrypt.C02b.desKey_eq_iff
+#print axioms GoCrypt.C02b.des_of_equiv
+#print axioms GoCrypt.C02b.des_absorbs
+#print axioms GoCrypt.C02b.des_check_absorbs
+#print axioms GoCrypt.C02b.des_check_of_equiv
+#print axioms GoCrypt.C02b.desextKey_of_equiv
+#print axioms GoCrypt.C02b.desextKey_absorbs
+#print axioms GoCrypt.C02b.desext_absorbs
+#print axioms GoCrypt.C02b.desext_check_absorbs
+#print axioms GoCrypt.C02b.desext_check_of_equiv
+#print axioms GoCrypt.C02b.desext_fold_collision
+#print axioms GoCrypt.C02b.desext_short_twin
+#print axioms GoCrypt.C02b.desext_twin_checks
+#print axioms GoCrypt.C02b.desWord_ignores_parity
+#print axioms GoCrypt.C02b.blowfish_schedule_reads_72
+#print axioms GoCrypt.C02b.bcrypt_of_equiv
+#print axioms GoCrypt.C02b.bcryptEquiv_iff_take72
+#print axioms GoCrypt.C02b.bcryptEquiv_long
+#print axioms GoCrypt.C02b.bcryptEquiv_coarser
+#print axioms GoCrypt.C02b.bcrypt_absorbs
+#print axioms GoCrypt.C02b.bcrypt_check_absorbs
+#print axioms GoCrypt.C02b.bcrypt_check_of_equiv
+#print axioms GoCrypt.C02b.utf16le_not_injective
+#print axioms GoCrypt.C02b.utf16le_injective_on_valid
+#print axioms GoCrypt.C02b.nthash_absorbs
+#print axioms GoCrypt.C02b.nthash_check_absorbs
+#print axioms GoCrypt.C02b.nthash_check_of_equiv
+#print axioms GoCrypt.C02b.argon2_key_eq_core
+#print axioms GoCrypt.C02b.argon2_absorbs
+#print axioms GoCrypt.C02b.argon2_check_absorbs
 
 end GoCrypt.C02
